@@ -30,6 +30,7 @@ type c20Job struct {
 	kind     int // 0 once 1 loop 2 cron(valid, every 2s) 3 cron(invalid)
 	period   time.Duration
 	toSink   bool
+	toPeer   int    // >= 0: delivered to that other owner, which has jobs (and references) of its own
 	ref      string // "" = default reference
 	start    time.Duration
 	schedErr error
@@ -111,7 +112,13 @@ func c20Jobs(r *R) {
 	for o := 0; o < nOwners; o++ {
 		n := 1 + r.Choose(5)
 		for k := 0; k < n; k++ {
-			j := &c20Job{id: len(jobs) + 1, owner: o, kind: r.Choose(7) % 4, period: periods[r.Choose(len(periods))], toSink: r.Chance(35), end: horizon}
+			j := &c20Job{id: len(jobs) + 1, owner: o, kind: r.Choose(7) % 4, period: periods[r.Choose(len(periods))], toSink: r.Chance(35), toPeer: -1, end: horizon}
+			if !j.toSink && nOwners > 1 && r.Chance(30) {
+				// the receiver is another owner: a scheduled message reaching an actor has nothing to do with that actor's own
+				// jobs, even when both use the same reference
+				j.toPeer = (o + 1 + r.Choose(nOwners-1)) % nOwners
+				r.Count("job-delivered-to-another-owner")
+			}
 			if j.kind == 0 && r.Chance(15) {
 				// "all delays": a Once with a delay of zero or of one millisecond
 				j.period = []time.Duration{0, time.Millisecond}[r.Choose(2)]
@@ -123,7 +130,7 @@ func c20Jobs(r *R) {
 				j.ref = "shared" // the same reference on different actors (and possibly twice on one: the later job replaces the key)
 			}
 			jobs = append(jobs, j)
-			jdesc = append(jdesc, fmt.Sprintf("job%d owner=j%d kind=%s period=%v sink=%v ref=%q", j.id, o, []string{"once", "loop", "cron", "cron-invalid"}[j.kind], j.period, j.toSink, j.ref))
+			jdesc = append(jdesc, fmt.Sprintf("job%d owner=j%d kind=%s period=%v sink=%v peer=%d ref=%q", j.id, o, []string{"once", "loop", "cron", "cron-invalid"}[j.kind], j.period, j.toSink, j.toPeer, j.ref))
 		}
 	}
 	ownerRef := func(o int) vivid.ActorRef { return w.RefBy("create", nil, ownerPath(o)) }
@@ -167,6 +174,9 @@ func c20Jobs(r *R) {
 				recv := ctx.Ref()
 				if j.toSink {
 					recv = sink
+				}
+				if j.toPeer >= 0 {
+					recv = ownerRef(j.toPeer)
 				}
 				var opts []vivid.ScheduleOption
 				if j.ref != "" {
@@ -362,6 +372,10 @@ func c20Jobs(r *R) {
 	// dead letters carry a SchedulerMessage wrapping the payload: the observer unwraps Cmd payloads only, so map by owner below
 	for _, j := range jobs {
 		got := deliveries[j.id]
+		if j.toPeer >= 0 {
+			// the receiving owner may itself have been killed by the script: the firing then shows as a dead letter
+			got = append(append([]time.Duration{}, got...), dlAt[j.id]...)
+		}
 		sort.Slice(got, func(a, b int) bool { return got[a] < got[b] })
 		if j.kind == 3 {
 			if !errors.Is(j.schedErr, vivid.ErrorCronParse) {
